@@ -12,6 +12,11 @@ the protocol, attaches a `FakeTransport` and starts the scripted server (`Server
 from __future__ import annotations
 
 import asyncio
+import contextvars
+
+# which request of a case is running in the current task (several calls in flight on one client: every gather()ed
+# coroutine runs in its own copy of the context, and whatever it awaits - wait_for, create_connection - inherits it)
+WHO: contextvars.ContextVar = contextvars.ContextVar("nv_request", default=None)
 
 
 class FakeTransport:
@@ -22,6 +27,7 @@ class FakeTransport:
         self.dropped: list[bytes] = []
         self.closed = False
         self.close_calls = 0
+        self.t_close = None          # loop time of the first close() by the client
         self.lost_called = False
         self.pause_after = None      # bytes after which the transport signals pause_writing (the peer has stopped reading)
         self.paused = False
@@ -44,6 +50,7 @@ class FakeTransport:
             return
         self.closed = True
         if self.loop is not None:
+            self.t_close = self.loop.time()
             self.loop.call_soon(self._lost, None)
 
     def abort(self, exc=None) -> None:
@@ -74,6 +81,8 @@ class ServerScript:
     def __init__(self, chunks, delays, end: str, end_delay: float = 0.0, connect_delay: float = 0.0):
         self.chunks, self.delays, self.end, self.end_delay, self.connect_delay = chunks, delays, end, end_delay, connect_delay
         self.t_end = None          # virtual time at which the server closed / reset
+        self.t_up = None           # virtual time at which the connection was established
+        self.delivered = 0         # bytes handed to data_received
         self.escaped = []          # exceptions that escaped connection_lost
         self.transport = None
 
@@ -83,6 +92,7 @@ class ServerScript:
             await asyncio.sleep(d)
             if tr.closed:
                 return                 # asyncio delivers nothing after close()
+            self.delivered += len(c)
             try:
                 proto.data_received(c)
             except Exception as e:  # noqa: BLE001  asyncio: "Fatal error: protocol.data_received() call failed."
@@ -106,6 +116,7 @@ class VLoop(asyncio.SelectorEventLoop):
         super().__init__()
         self._vt = 0.0
         self.scripts: list[ServerScript] = []      # one per connection, consumed in order
+        self.scripts_of: dict = {}                 # request id (WHO) -> its scripts, consumed in order (calls in flight together)
         self.conns: list[FakeTransport] = []
         self.tasks = []
         real_select = self._selector.select
@@ -123,13 +134,15 @@ class VLoop(asyncio.SelectorEventLoop):
         return self._vt
 
     async def create_connection(self, protocol_factory, host=None, port=None, **kw):
-        script = self.scripts.pop(0)
+        who = WHO.get()
+        script = self.scripts_of[who].pop(0) if who in self.scripts_of else self.scripts.pop(0)
         if script.connect_delay:
             await asyncio.sleep(script.connect_delay)
         proto = protocol_factory()
         tr = FakeTransport(self, proto)
         tr.pause_after = getattr(script, "pause_after", None)
         script.transport = tr
+        script.t_up = self.time()
         self.conns.append(tr)
         proto.connection_made(tr)
         self.tasks.append(self.create_task(script.run(self, tr)))
